@@ -7,10 +7,8 @@
   Numbers read from a key file are `*big.Int` that may be nil (`#zz#` makes SetString fail and
   the reader stores the nil pointer without complaint) or negative (`#-5#`): `Option Int`.
 
-  Non-termination: see Otr.Sexp.  `readAccounts` loops until `readAccount` reports `atEnd`,
-  which it does when `ReadListStart` fails; at EOF a failing `expect` puts the last byte read
-  back, so an input that ends in an unclosed "(" feeds `ReadListStart` the same "(" for ever
-  (`Run.hang`; the Go loop appends an account per round until memory runs out).
+  Termination: see Otr.Sexp.  The loops of readAccounts and readDSAPrivateKey run on fuel =
+  number of bytes left + 1; every round that continues has consumed a "(".
 
   Core Lean only.
 -/
@@ -37,30 +35,30 @@ structure Account where
 /-! ### reading -/
 
 /-- readPotentialBigNum -/
-def readPotentialBigNum (n : Nat) (r : Rd) : Run ((Option Int × Bool) × Rd) := do
-  let ((v, _), r) ← readValue n r
+def readPotentialBigNum (r : Rd) : Run ((Option Int × Bool) × Rd) := do
+  let ((v, _), r) ← readValue r
   match v with
   | .big val => pure ((val, true), r)
   | _ => pure ((none, false), r)
 
 /-- readPotentialSymbol -/
-def readPotentialSymbol (n : Nat) (r : Rd) : Run ((Bytes × Bool) × Rd) := do
-  let ((v, _), r) ← readValue n r
+def readPotentialSymbol (r : Rd) : Run ((Bytes × Bool) × Rd) := do
+  let ((v, _), r) ← readValue r
   match v with
   | .sym s => pure ((s, true), r)
   | _ => pure (([], false), r)
 
 /-- readPotentialStringOrSymbol -/
-def readPotentialStringOrSymbol (n : Nat) (r : Rd) : Run ((Bytes × Bool) × Rd) := do
-  let ((v, _), r) ← readValue n r
+def readPotentialStringOrSymbol (r : Rd) : Run ((Bytes × Bool) × Rd) := do
+  let ((v, _), r) ← readValue r
   match v with
   | .str s => pure ((s, true), r)
   | .sym s => pure ((s, true), r)
   | _ => pure (([], false), r)
 
 /-- readSymbolAndExpect -/
-def readSymbolAndExpect (n : Nat) (r : Rd) (s : Bytes) : Run (Bool × Rd) := do
-  let ((res, ok), r) ← readPotentialSymbol n r
+def readSymbolAndExpect (r : Rd) (s : Bytes) : Run (Bool × Rd) := do
+  let ((res, ok), r) ← readPotentialSymbol r
   pure (ok && res == s, r)
 
 /-- assignParameter; `none` = unknown tag -/
@@ -83,33 +81,33 @@ structure ParamRes where
 def ParamRes.stop : ParamRes := ⟨[], none, true, true⟩
 
 /-- readParameter -/
-def readParameter (n : Nat) (r : Rd) : Run (ParamRes × Rd) :=
+def readParameter (r : Rd) : Run (ParamRes × Rd) :=
   match expect r chLParen with
   | (false, r) => pure (ParamRes.stop, r)
   | (true, r) => do
-    let ((tag, ok1), r) ← readPotentialSymbol n r
-    let ((value, ok2), r) ← readPotentialBigNum n r
+    let ((tag, ok1), r) ← readPotentialSymbol r
+    let ((value, ok2), r) ← readPotentialBigNum r
     match expect r chRParen with
     | (false, r) => pure (ParamRes.stop, r)
     | (true, r) => pure (⟨tag, value, false, ok1 && ok2⟩, r)
 
 /-- the `for` loop of readDSAPrivateKey; inner `none` = `return nil, false` -/
-def readDSAParams (n : Nat) : Nat → DsaPriv → Rd → Run (Option DsaPriv × Rd)
-  | 0, _, _ => .hang
+def readDSAParams : Nat → DsaPriv → Rd → Run (Option DsaPriv × Rd)
+  | 0, _, _ => .outOfFuel
   | fuel + 1, k, r => do
-    let (pr, r) ← readParameter n r
+    let (pr, r) ← readParameter r
     if !pr.ok then pure (none, r)
     else if pr.atEnd then pure (some k, r)
     else
       match assignParameter k pr.tag pr.value with
       | none => pure (none, r)
-      | some k => readDSAParams n fuel k r
+      | some k => readDSAParams fuel k r
 
 /-- readDSAPrivateKey: (key or nil, ok) -/
-def readDSAPrivateKey (n : Nat) (r : Rd) : Run ((Option DsaPriv × Bool) × Rd) := do
+def readDSAPrivateKey (r : Rd) : Run ((Option DsaPriv × Bool) × Rd) := do
   let (_, r) := expect r chLParen
-  let (ok1, r) ← readSymbolAndExpect n r (strBytes "dsa")
-  let (k, r) ← readDSAParams n (fuelFor n) {} r
+  let (ok1, r) ← readSymbolAndExpect r (strBytes "dsa")
+  let (k, r) ← readDSAParams (r.inp.length + 1) {} r
   match k with
   | none => pure ((none, false), r)
   | some k =>
@@ -117,65 +115,65 @@ def readDSAPrivateKey (n : Nat) (r : Rd) : Run ((Option DsaPriv × Bool) × Rd) 
     pure ((some k, ok1 && ok2), r)
 
 /-- readPrivateKey -/
-def readPrivateKey (n : Nat) (r : Rd) : Run ((DsaPriv × Bool) × Rd) := do
+def readPrivateKey (r : Rd) : Run ((DsaPriv × Bool) × Rd) := do
   let (_, r) := expect r chLParen
-  let (ok1, r) ← readSymbolAndExpect n r (strBytes "private-key")
-  let ((res, ok2), r) ← readDSAPrivateKey n r
+  let (ok1, r) ← readSymbolAndExpect r (strBytes "private-key")
+  let ((res, ok2), r) ← readDSAPrivateKey r
   let k : DsaPriv := if ok2 then res.getD {} else {}
   let (ok3, r) := expect r chRParen
   pure ((k, ok1 && ok2 && ok3), r)
 
 /-- readAccountName -/
-def readAccountName (n : Nat) (r : Rd) : Run ((Bytes × Bool) × Rd) := do
+def readAccountName (r : Rd) : Run ((Bytes × Bool) × Rd) := do
   let (_, r) := expect r chLParen
-  let (ok1, r) ← readSymbolAndExpect n r (strBytes "name")
-  let ((nm, ok2), r) ← readPotentialStringOrSymbol n r
+  let (ok1, r) ← readSymbolAndExpect r (strBytes "name")
+  let ((nm, ok2), r) ← readPotentialStringOrSymbol r
   let (ok3, r) := expect r chRParen
   pure ((nm, ok1 && ok2 && ok3), r)
 
 /-- readAccountProtocol -/
-def readAccountProtocol (n : Nat) (r : Rd) : Run ((Bytes × Bool) × Rd) := do
+def readAccountProtocol (r : Rd) : Run ((Bytes × Bool) × Rd) := do
   let (_, r) := expect r chLParen
-  let (ok1, r) ← readSymbolAndExpect n r (strBytes "protocol")
-  let ((nm, ok2), r) ← readPotentialSymbol n r
+  let (ok1, r) ← readSymbolAndExpect r (strBytes "protocol")
+  let ((nm, ok2), r) ← readPotentialSymbol r
   let (ok3, r) := expect r chRParen
   pure ((nm, ok1 && ok2 && ok3), r)
 
 /-- readAccount: (account, ok, atEnd); the account is `none` when atEnd -/
-def readAccount (n : Nat) (r : Rd) : Run ((Option Account × Bool × Bool) × Rd) :=
+def readAccount (r : Rd) : Run ((Option Account × Bool × Bool) × Rd) :=
   match expect r chLParen with
   | (false, r) => pure ((none, true, true), r)
   | (true, r) => do
-    let (ok1, r) ← readSymbolAndExpect n r (strBytes "account")
-    let ((name, ok2), r) ← readAccountName n r
-    let ((proto, ok3), r) ← readAccountProtocol n r
-    let ((key, ok4), r) ← readPrivateKey n r
+    let (ok1, r) ← readSymbolAndExpect r (strBytes "account")
+    let ((name, ok2), r) ← readAccountName r
+    let ((proto, ok3), r) ← readAccountProtocol r
+    let ((key, ok4), r) ← readPrivateKey r
     let (ok5, r) := expect r chRParen
     pure ((some ⟨name, proto, key⟩, ok1 && ok2 && ok3 && ok4 && ok5, false), r)
 
 /-- the `for` loop of readAccounts: (accounts so far, ok2) -/
-def readAccountsLoop (n : Nat) : Nat → List Account → Bool → Rd → Run ((List Account × Bool) × Rd)
-  | 0, _, _, _ => .hang
+def readAccountsLoop : Nat → List Account → Bool → Rd → Run ((List Account × Bool) × Rd)
+  | 0, _, _, _ => .outOfFuel
   | fuel + 1, as, ok2, r => do
-    let ((a, ok, atEnd), r) ← readAccount n r
+    let ((a, ok, atEnd), r) ← readAccount r
     let ok2 := ok2 && ok
     if atEnd then pure ((as, ok2), r)
     else
       match a with
-      | some a => readAccountsLoop n fuel (as ++ [a]) ok2 r
-      | none => readAccountsLoop n fuel as ok2 r
+      | some a => readAccountsLoop fuel (as ++ [a]) ok2 r
+      | none => readAccountsLoop fuel as ok2 r
 
 /-- readAccounts -/
-def readAccounts (n : Nat) (r : Rd) : Run ((List Account × Bool) × Rd) := do
+def readAccounts (r : Rd) : Run ((List Account × Bool) × Rd) := do
   let (_, r) := expect r chLParen
-  let (ok1, r) ← readSymbolAndExpect n r (strBytes "privkeys")
-  let ((as, ok2), r) ← readAccountsLoop n (fuelFor n) [] true r
+  let (ok1, r) ← readSymbolAndExpect r (strBytes "privkeys")
+  let ((as, ok2), r) ← readAccountsLoop (r.inp.length + 1) [] true r
   let (ok3, r) := expect r chRParen
   pure ((as, ok1 && ok2 && ok3), r)
 
 /-- ImportKeys(bytes.NewReader(b)): `none` = error -/
 def importKeys (b : Bytes) : Run (Option (List Account)) := do
-  let ((as, ok), _) ← readAccounts b.length ⟨b, none⟩
+  let ((as, ok), _) ← readAccounts ⟨b, none⟩
   pure (if ok then some as else none)
 
 /-! ### writing -/
@@ -233,9 +231,9 @@ def importScan : Nat → Bytes → Option (List Nat)
       let hexBytes := rest.takeWhile isHexByte
       let rest' := rest.dropWhile isHexByte
       if rest'.isEmpty then none                -- IndexFunc = -1: the digits run to the end of the input
-      else if hexBytes.length % 2 = 1 then none
       else
-        -- hex.Decode then big.Int.SetBytes: the value of the digit string (0 for the empty string)
+        -- an odd number of digits is padded with a leading '0' (repaired code); hex.Decode then
+        -- big.Int.SetBytes: the value of the digit string (0 for the empty string)
         match parseHexDigits hexBytes 0, importScan k rest' with
         | some v, some vs => some (v :: vs)
         | _, _ => none
